@@ -452,6 +452,11 @@ def execute(plan, rec):
             rec.check('C13.bools_shape',
                       len(bools) == len(objs) and all(len(r) == len(prps) for r in bools),
                       lambda got=got: f'slot {i}: ragged {got!r}')
+            parts = call(lambda d=d: (list(d), [d[0], d[1], d[2]]))    # unpacking and integer indexing
+            rec.check('C13.iter_getitem_eq_triple',
+                      parts.ok and [tuple(parts.value[0][0]), tuple(parts.value[0][1]), [tuple(r) for r in parts.value[0][2]]] == list(got)
+                      and [tuple(parts.value[1][0]), tuple(parts.value[1][1]), [tuple(r) for r in parts.value[1][2]]] == list(got),
+                      lambda i=i, parts=parts: f'slot {i}: list(d) / d[0..2] = {parts.text()[:400]} but the triple is {got!r}')
             tup = call(lambda d=d, got=got: (d == got, d != got))   # documented: d == (objects, properties, bools)
             rec.check('C13.eq_own_triple', tup.ok and tup.value == (True, False),
                       lambda i=i, tup=tup: f'slot {i}: d == (d.objects, d.properties, d.bools) gives {tup.text()}')
@@ -638,8 +643,9 @@ def execute(plan, rec):
                 out = call(d.union if kind == 'd_union' else d.intersection, t, bool(ev[3]))
             dsts = (ev[4],)
         elif kind == 'd_take':
-            objs = None if ev[2] is None else list(ev[2])
-            prps = None if ev[3] is None else list(ev[3])
+            seq = tuple if index % 3 == 0 else list      # any Sequence of names
+            objs = None if ev[2] is None else seq(ev[2])
+            prps = None if ev[3] is None else seq(ev[3])
             out = call(d.take, objs, prps, bool(ev[4]))
             dsts = (ev[5],)
         else:  # pragma: no cover
